@@ -36,6 +36,8 @@ fn curated() -> Vec<(Vec<Line>, Term)> {
         vec![class("p.A", "a"), m(Some((1, 1)), None, "p", "", Orig::None, "m"), m(Some((1, 1)), None, "p", "", Orig::None, "m"), class("p.B", "b"), m(Some((5, 5)), None, "q", "int", Orig::SE(9, 7), "m"), class("p.C", "c")],
         vec![class("x.Outer$Inner", "b"), Line::SourceFile("R8$$SyntheticClass"), m(Some((3, 6)), None, "p", "", Orig::SE(7, 9), "m"), m(Some((3, 6)), Some("q.F$G"), "q", "", Orig::S(1), "m")],
     ];
+    // long non-ASCII names: runs of > 10 bytes with the high bit set inside the string section
+    v.push(vec![class("com.example.\u{65e5}\u{672c}\u{8a9e}\u{306e}\u{30af}\u{30e9}\u{30b9}\u{540d}", "a"), m(Some((1, 2)), Some("\u{e9}\u{e8}\u{ea}\u{eb}\u{e0}\u{e2}\u{e4}.K"), "\u{65b9}\u{6cd5}\u{540d}\u{524d}\u{3067}\u{3059}", "\u{578b}\u{578b}\u{578b}\u{578b}", Orig::SE(3, 4), "m")]);
     // 1..5 classes with 0..2 members each (odd/even counts so that every padding site is / is not exercised)
     for nc in 1..=5usize {
         for nm in 0..=2usize {
@@ -206,6 +208,16 @@ fn c11_visit(lines: &[Line], term: Term, acc: &mut Acc) {
             }
         }
     }
+    // every single-bit flip of every header field
+    for f in 0..6usize {
+        let cur = u32_at(&full, 4 * f);
+        for b in 0..32 {
+            edits.push((4 * f, cur ^ (1u32 << b)));
+        }
+    }
+    for v in [0x0001_0001u32, 0x8000_0001, 0xffff_0001, 0x0100_0000, 0x0000_0101] {
+        edits.push((4, v));
+    }
     // precedence: a second edit behind a first one
     let mut scripts: Vec<Vec<(usize, u32)>> = edits.iter().map(|e| vec![*e]).collect();
     scripts.push(vec![(0, MAGIC.swap_bytes()), (4, 2)]);
@@ -256,13 +268,22 @@ pub fn run_c11(tier: Tier) -> i32 {
             }
         }
     }
+    // names of 127..1025 bytes (2-byte LEB128 prefixes) and the character-class family
+    for (l, tm) in crate::families::scale_family(true).files.iter().filter(|(l, _)| l.iter().map(|x| x.printed().len()).sum::<usize>() < 6000 && l.len() <= 12) {
+        bases.push((l.clone(), *tm));
+    }
+    for (i, f) in crate::families::unicode_family().files.iter().enumerate() {
+        if t || i % 16 == 0 {
+            bases.push(f.clone());
+        }
+    }
     let nb = bases.len();
     let mut acc = par_run(&bases, &budget, |(l, tm), acc, _| c11_visit(l, *tm, acc));
     let meta = RunMeta {
         prop: "C11",
         tier,
         level: "fault_enumeration",
-        rule: "base files = caches written from every curated mapping, every MS-B history (depth <= 3 quick / 4 thorough), MS-C and small MS-D files; faults = every strict prefix length 0..len-1 (crash points) and every single-field edit of the header (5 magic values, 3 versions, 6 values per count) plus 4 two-edit precedence scripts; oracle = rejection with the error kind the documented layout implies (computed by the independent decoder), or acceptance with answers identical to the full file. evaluations = faulted buffers parsed; distinct = distinct (fault class, error kind) pairs".into(),
+        rule: "base files = caches written from every curated mapping, every MS-B history (depth <= 3 quick / 4 thorough), MS-C and small MS-D files, the long-name files (127..1025-byte names) and the character-class family; faults = every strict prefix length 0..len-1 (crash points) and every single-field edit of the header (5 magic values, 8 versions incl. values whose low or high half is 1, 6 values per count, every single-bit flip of all six fields) plus 4 two-edit precedence scripts; oracle = rejection with the error kind the documented layout implies (computed by the independent decoder), or acceptance with answers identical to the full file. evaluations = faulted buffers parsed; distinct = distinct (fault class, error kind) pairs".into(),
         bounds: json!({"base_files": nb, "prefixes": "all", "header_edits_per_file": "5 magic + 3 version + up to 24 count values + 4 precedence scripts"}),
         assumptions: vec!["prefixes shorter than the 24-byte header: any error kind is accepted (the statement names none)".into(), "buffers handed to the parser are 8-aligned (the parser pads relative to the memory address)".into()],
         trusted_base: vec!["rustc/std".into(), "layout arithmetic of pgmc/src/dec.rs".into()],
@@ -384,6 +405,14 @@ fn field_devs(full: &[u8]) -> Vec<Dev> {
             offs.push(d.layout.bp_at as usize + i * MEMBER_SIZE + 4 * k);
         }
     }
+    // a file whose string section contains non-ASCII text: additionally EVERY offset of the string section
+    if d.strings.iter().filter(|b| **b >= 0x80).count() > 10 {
+        for x in 0..d.strings.len() as u32 {
+            if !vals.contains(&x) {
+                vals.push(x);
+            }
+        }
+    }
     let mut v = Vec::new();
     for o in offs {
         let curv = u32_at(full, o);
@@ -434,7 +463,7 @@ fn inside(s: &str, lo: usize, hi: usize) -> bool {
 }
 
 /// all queries of the universe against one (possibly corrupted) accepted buffer; returns the first offence
-fn c12_queries(cache: &cur::ProguardCache<'_>, uni: &Universe, buf: (usize, usize), obs: &mut u64, outcomes: &mut Vec<u64>) -> Option<(String, String)> {
+fn c12_queries(cache: &cur::ProguardCache<'_>, uni: &Universe, buf: (usize, usize), obs: &mut u64, outcomes: &mut Vec<u64>, long: bool) -> Option<(String, String)> {
     let mut out: Vec<Fr<'_>> = Vec::new();
     let (lo, hi) = buf;
     let lines: [usize; 7] = [0, 1, 2, 3, 5, (1usize << 32), usize::MAX];
@@ -497,8 +526,18 @@ fn c12_queries(cache: &cur::ProguardCache<'_>, uni: &Universe, buf: (usize, usiz
         *obs += 1;
         let _ = Subj::deobfuscate_signature(cache, s);
     }
+    // the long signatures (up to 70000 array dimensions / parameters / name bytes): on the uncorrupted file and on
+    // every 97th corrupted buffer
+    if long {
+        for s in LONG_SIGS.get_or_init(crate::props::c13::long_signatures) {
+            *obs += 1;
+            let _ = Subj::deobfuscate_signature(cache, s);
+        }
+    }
     None
 }
+
+static LONG_SIGS: std::sync::OnceLock<Vec<String>> = std::sync::OnceLock::new();
 
 struct C12Base {
     lines: Vec<Line>,
@@ -517,7 +556,7 @@ fn c12_eval(full: &[u8], devs: &[Dev], uni: &Universe, ab: &mut Aligned, acc: &m
     let mut outs: Vec<u64> = Vec::new();
     let r = guarded(|| match cur::ProguardCache::parse(ab.as_slice()) {
         Err(_) => (false, None),
-        Ok(c) => (true, c12_queries(&c, uni, range, &mut obs, &mut outs)),
+        Ok(c) => (true, c12_queries(&c, uni, range, &mut obs, &mut outs, devs.is_empty() || acc.transitions % 97 == 0)),
     });
     acc.observations += obs.max(1);
     match r {
@@ -621,7 +660,7 @@ pub fn run_c12(tier: Tier) -> i32 {
         prop: "C12",
         tier,
         level: "fault_enumeration",
-        rule: "base files = caches of the curated mappings and of every MS-B history of depth <= 2; deviation bound 1 on all base files: every 32-bit field (header, every class / member / by-params record) set to each boundary value (0,1,2,counts-1,counts,2^31,2^32-2,2^32-1, a valid string offset, an offset one byte into a string), every single-bit flip of the whole file, every string-section byte set to 00/7f/80/ff, every adjacent record swap and duplication; deviation bound 2 (all pairs of field edits) on 3 (quick) / 10 (thorough) files. Every buffer the parser accepts is queried with the full universe incl. lines 0, 2^32, 2^64-1. evaluations = corrupted buffers; distinct = distinct answer vectors of accepted buffers".into(),
+        rule: "base files = caches of the curated mappings and of every MS-B history of depth <= 2; deviation bound 1 on all base files: every 32-bit field (header, every class / member / by-params record) set to each boundary value (0,1,2,counts-1,counts,2^31,2^32-2,2^32-1, a valid string offset, an offset one byte into a string; for the base file with long non-ASCII names: every offset of the string section), every single-bit flip of the whole file, every string-section byte set to 00/7f/80/ff, every adjacent record swap and duplication; deviation bound 2 (all pairs of field edits) on 3 (quick) / 10 (thorough) files. Every buffer the parser accepts is queried with the full universe incl. lines 0, 2^32, 2^64-1. evaluations = corrupted buffers; distinct = distinct answer vectors of accepted buffers".into(),
         bounds: json!({"base_files": nb, "deviation_bound_all_files": 1, "deviation_bound_2_files": two_budget}),
         assumptions: vec!["Debug/Display helpers of cache/debug.rs and ProguardCache::test() are outside the property's list of queries".into(), "overflow checks are compiled in (release profile with overflow-checks = true, debug-assertions = true)".into()],
         trusted_base: vec!["rustc/std".into(), "pgmc/src/dec.rs for locating fields".into()],
